@@ -1057,7 +1057,7 @@ class Sim:
         unhash = [] if K_CHAN in self.ctx.avoid else [[['x']], [{}], [['app'], 'app']]
         k = ch.draw(11, 'mutation')
         if k == 0:
-            d['name'] = ch.choice([5, None, ['a'], {'a': 1}, '', 'no_such_handler', 'a b', 'év', True], 'm-name')
+            d['name'] = ch.choice([5, None, ['a'], {'a': 1}, '', 'no_such_handler', 'a b', 'év', True, 'a\x00b', '\ud800'], 'm-name')
             return json.dumps(d).encode(), 'name:%s' % short(d['name'], 20)
         if k == 1:
             d['args'] = ch.choice(['abc', 5, None, {'a': 1}, [[[[[]]]]], True], 'm-args')
@@ -1081,7 +1081,7 @@ class Sim:
             return json.dumps(d).encode(), 'meta:%s' % short(d['meta'], 20)
         if k == 7:
             key = ch.choice(['success', 'failure', 'notify'], 'm-flag')
-            d[key] = ch.choice(['no', [], {}, 'evt', 0, None, [0]], 'm-flag-val')
+            d[key] = ch.choice(['no', [], {}, 'evt', 0, None, [0], 'a\x00b', '\ud800', 'x' * 300], 'm-flag-val')
             return json.dumps(d).encode(), '%s:%s' % (key, short(d[key], 20))
         if k == 8:
             whole = ch.choice(['[]', '5', '"str"', 'null', 'true', '{}', '[{}]', '{"value": 1}', '{"value": 1, "id": 0, "errors": 0, "meta": 5}',
